@@ -148,7 +148,7 @@ impl<'a> Gen<'a> {
             return (format!("{}({})", name, ts.join(", ")), Goal::BuiltInGoal(BuiltInPredicate::new(name.into(), Some(es))));
         }
         if k < 80 { let n = *self.r.pick(&["!", "fail", "nl"]); return (n.to_string(), Goal::BuiltInGoal(BuiltInPredicate::new(n.into(), None))); }
-        if k < 90 && d < 2 { let (t, g) = self.subgoal(d + 2); if !t.contains(" = ") && !t.starts_with("not(") { return (format!("not({})", t), Goal::OperatorGoal(Operator::Not(vec![g]))); } }
+        if k < 90 && d < 3 { let (t, g) = self.subgoal(d + 2); if !t.contains(" = ") { return (format!("not({})", t), Goal::OperatorGoal(Operator::Not(vec![g]))); } }
         let (a, va) = self.term(d + 1);
         let f = *self.r.pick(&["add", "subtract", "multiply", "divide", "join"]);
         let (b, vb) = self.term(d + 1); let (c, vc) = self.term(d + 1);
@@ -412,8 +412,14 @@ pub fn run_contexts(out: &mut Out, cfg: &Cfg, seed: u64, n: usize) {
                     "４２", "１.５", "²", "½", "Ⅳ", "①", "٤٢", "१०", "4２", "x²",
                     "$X + 1", "1 + 2", "$A * $B", "a - b", "6 / 3", "1.5 + $X",
                     "555-1234", "2023-01-05", "10+20", "1.5-2.5", "7-", "-7-", "1e-5", "3-a", "a-3", "--3", "+-3"];
+    // texts of fewer than 1000 characters and more than 1000 bytes (seeded change C20r11: the length limit of complex terms
+    // counted in bytes): a Cyrillic word of 600 letters, a list of 100 Greek words, a quoted Cyrillic sentence
+    let long_word: String = std::iter::repeat("ж").take(600).collect();
+    let long_list: String = format!("[{}]", std::iter::repeat("λόγος").take(100).collect::<Vec<_>>().join(", "));
+    let long_quoted: String = format!("\"{}\"", std::iter::repeat("слово").take(110).collect::<Vec<_>>().join(" "));
+    let longs = [long_word, long_list, long_quoted];
     for i in 0..n {
-        let text = if i % 3 == 0 { (*r.pick(&specials)).to_string() } else { let mut g = Gen{r: &mut r, depth: 2}; g.term(0).0 };
+        let text = if i < longs.len() { longs[i].clone() } else if i % 3 == 0 { (*r.pick(&specials)).to_string() } else { let mut g = Gen{r: &mut r, depth: 2}; g.term(0).0 };
         emit_context(out, cfg, &text);
     }
 }
